@@ -230,13 +230,14 @@ def eval_one(prop, sc, judge_only=False):
 def shrink(prop, sc, kind, clause=None, max_evals=400):
     """delta-debugging on the op list (keeps configuration ops)"""
     ops = sc['ops']
-    head = [o for o in ops if o['op'] in prop.keep_ops]
-    body = [o for o in ops if o['op'] not in prop.keep_ops]
+    head_idx = [k for k, o in enumerate(ops) if o['op'] in prop.keep_ops or o.get('keep')]
+    body = [(k, o) for k, o in enumerate(ops) if not (o['op'] in prop.keep_ops or o.get('keep'))]
+    fixed = [(k, ops[k]) for k in head_idx]
     evals = [0]
 
     def bad(b):
         evals[0] += 1
-        cand = dict(sc, ops=head + b)
+        cand = dict(sc, ops=[o for _, o in sorted(fixed + b, key=lambda x: x[0])])
         k, info = eval_one(prop, cand, judge_only=(kind == 'judge'))
         if k != kind:
             return False
@@ -259,7 +260,7 @@ def shrink(prop, sc, kind, clause=None, max_evals=400):
             if chunk == 1:
                 break
             n = min(n * 2, len(body))
-    return dict(sc, ops=head + body)
+    return dict(sc, ops=[o for _, o in sorted(fixed + body, key=lambda x: x[0])])
 
 
 def write_replay(pid, obj):
